@@ -21,6 +21,7 @@ import Cicada.Spec.C19
 import Cicada.Spec.C13
 import Cicada.Model.FdDriver
 import Cicada.Spec.C20
+import Cicada.Drive.C07
 /-!
 `cicada_model` — runs the Lean model (the very definitions the theorems are about) and the
 reference semantics on the cases of the correspondence protocol.
@@ -878,6 +879,19 @@ def answer (stream : String) (f : Array String) : Ans :=
     let w := ops.foldl C06.worldStep []
     let m := "|".intercalate outs
     { m := m ++ "#" ++ viewOut (C06.modelView s), s := (m ++ "#" ++ viewOut (C06.specView w)), guard := g 1, cls := g 2 }
+  | "term" =>
+    -- C07: a session through the small-step model (all delivery orders of terminal signals) and the reference world
+    let acts := DriveC07.parseActs (g 0)
+    let r := DriveC07.replayModel {} acts
+    (match r.bad with
+     | some why => { m := "UNMODELLED " ++ why }
+     | none =>
+       let cls := C07.classOf (C07.flagsOf acts)
+       { m := "|".intercalate r.obs, s := "|".intercalate (DriveC07.replaySpec acts), guard := if cls = "-" then "1" else "0", cls := cls })
+  | "termgen" =>
+    let seed := (g 0).toNat?.getD 1
+    let n := (g 1).toNat?.getD 10
+    { m := ";".intercalate ((DriveC07.genSession (UInt64.ofNat seed) n).map DriveC07.actOut) }
   | "hist" =>
     -- ops: `A:hexdir:hexline`, `L:hexpattern`, `D:id.id` separated by `;`
     let ops := (g 0).splitOn ";"
